@@ -50,6 +50,7 @@ class Built:
         self.objs = []
         self.classes = []
         self.exposed_by_decorator = []   # (node, method name, aliases, function): marked through cherrypy.expose
+        self.config_by_decorator = []    # (node, method name, conf, function): attached through cherrypy.config(**conf)
         self._build()
 
     # -- probes -----------------------------------------------------------------------------
@@ -95,6 +96,7 @@ class Built:
                 if m.get('conf') is not None:
                     # the documented way to attach handler config: the `cherrypy.config(**kw)` decorator
                     cherrypy.config(**dict(m['conf']))(f)
+                    self.config_by_decorator.append((i, name, dict(m['conf']), f))
                 ns[name] = f
             if nd.get('call') is not None:
                 f = self._probe('%d()' % i)
